@@ -1,42 +1,46 @@
 /-
-  Invariants of the derivation world of Model/StmtCacheStore.lean under the healthy configuration (`good`):
-  one cache object per Open, every struct belongs to it, the stored struct stays stored, handle 0 stays the root.
+  Invariants of the derivation world of Model/StmtCacheStore.lean under the healthy configurations (`goodWith r`: the five
+  cooperating sites healthy, the session-level handle either a struct copy (`r = false`) or the registered struct itself
+  (`r = true`, repair of F14a)): one cache object per Open, every struct belongs to it, the stored struct stays stored,
+  handle 0 stays the root; with `r = true` there is ONE struct.
 -/
 import GormModel.Model.StmtCacheStore
 namespace Gorm.SCS
 
-structure Inv (w : World) : Prop where
-  cfg : w.cfg = good
+variable {r : Bool}
+
+structure Inv (r : Bool) (w : World) : Prop where
+  cfg : w.cfg = goodWith r
   cache0 : ∀ st ∈ w.structs, st.cache = 0
   bound : ∀ p ∈ w.handles, ∀ s, structOf p = some s → s < w.structs.length
   cnt : (w.nC = 0 ∧ w.store = none) ∨ (w.nC = 1 ∧ ∃ s, w.store = some s ∧ s < w.structs.length)
 
-theorem inv_open (prepare : Bool) : Inv (openW good prepare) := by
-  cases prepare <;> constructor <;> simp [openW, newCache, good, structOf]
+theorem inv_open (prepare : Bool) : Inv r (openW (goodWith r) prepare) := by
+  cases prepare <;> constructor <;> simp [openW, newCache, goodWith, structOf]
 
-theorem cacheFor_some (w : World) (hc : w.cfg = good) (s : Nat) (hs : w.store = some s) : cacheFor w = (w, s) := by
-  simp [cacheFor, lookupOrCreate, hc, good, hs]
+theorem cacheFor_some (w : World) (hc : w.cfg = goodWith r) (s : Nat) (hs : w.store = some s) : cacheFor w = (w, s) := by
+  simp [cacheFor, lookupOrCreate, hc, goodWith, hs]
 
 /-- the world after `NewPreparedStmtDB` + `Store` -/
 def created (w : World) : World :=
   { w with nC := w.nC + 1, nM := w.nM + 1, structs := w.structs ++ [{ cache := w.nC, map := some w.nM }],
            store := some w.structs.length }
 
-theorem cacheFor_none (w : World) (hc : w.cfg = good) (hs : w.store = none) :
+theorem cacheFor_none (w : World) (hc : w.cfg = goodWith r) (hs : w.store = none) :
     cacheFor w = (created w, w.structs.length) := by
-  simp [cacheFor, lookupOrCreate, hc, good, hs, newCache, created]
+  simp [cacheFor, lookupOrCreate, hc, goodWith, hs, newCache, created]
 
-theorem store_none_nC (w : World) (hI : Inv w) (hs : w.store = none) : w.nC = 0 := by
+theorem store_none_nC (w : World) (hI : Inv r w) (hs : w.store = none) : w.nC = 0 := by
   rcases hI.cnt with ⟨h, _⟩ | ⟨_, s', h, _⟩
   · exact h
   · rw [hs] at h; cases h
 
-theorem store_some_lt (w : World) (hI : Inv w) (s : Nat) (hs : w.store = some s) : s < w.structs.length := by
+theorem store_some_lt (w : World) (hI : Inv r w) (s : Nat) (hs : w.store = some s) : s < w.structs.length := by
   rcases hI.cnt with ⟨_, h⟩ | ⟨_, s', h, hl⟩
   · rw [hs] at h; cases h
   · rw [hs] at h; cases h; exact hl
 
-theorem inv_created (w : World) (hI : Inv w) (hs : w.store = none) : Inv (created w) := by
+theorem inv_created (w : World) (hI : Inv r w) (hs : w.store = none) : Inv r (created w) := by
   have hn := store_none_nC w hI hs
   refine ⟨hI.cfg, ?_, ?_, ?_⟩
   · intro st hst
@@ -53,8 +57,8 @@ theorem inv_created (w : World) (hI : Inv w) (hs : w.store = none) : Inv (create
 
 /-- what `Session(PrepareStmt)` works with in a healthy world: the stored struct (created and stored now if there was
     none); nothing else changes -/
-theorem cacheFor_good (w : World) (hI : Inv w) :
-    Inv (cacheFor w).1 ∧ (cacheFor w).1.handles = w.handles ∧ (cacheFor w).2 < (cacheFor w).1.structs.length ∧
+theorem cacheFor_good (w : World) (hI : Inv r w) :
+    Inv r (cacheFor w).1 ∧ (cacheFor w).1.handles = w.handles ∧ (cacheFor w).2 < (cacheFor w).1.structs.length ∧
     (cacheFor w).1.store = some (cacheFor w).2 := by
   cases hs : w.store with
   | some s =>
@@ -65,17 +69,17 @@ theorem cacheFor_good (w : World) (hI : Inv w) :
     exact ⟨inv_created w hI hs, rfl, by simp [created], rfl⟩
 
 /-- appending a handle whose struct exists / a copy of an existing struct keeps the invariant -/
-theorem inv_add_handle (w : World) (hI : Inv w) (q : Pool) (hq : ∀ s, structOf q = some s → s < w.structs.length) :
-    Inv { w with handles := w.handles ++ [q] } :=
+theorem inv_add_handle (w : World) (hI : Inv r w) (q : Pool) (hq : ∀ s, structOf q = some s → s < w.structs.length) :
+    Inv r ({ w with handles := w.handles ++ [q] }) :=
   ⟨hI.cfg, hI.cache0, fun q' hq' s hs => by
     simp only [List.mem_append, List.mem_singleton] at hq'
     rcases hq' with h' | h'
     · exact hI.bound q' h' s hs
     · rw [h'] at hs; exact hq s hs, hI.cnt⟩
 
-theorem inv_add_copy (w : World) (hI : Inv w) (s : Nat) (hs : s < w.structs.length) :
-    Inv { w with structs := w.structs ++ [w.structs[s]?.getD { cache := 0, map := none }],
-                 handles := w.handles ++ [.pdb w.structs.length] } := by
+theorem inv_add_copy (w : World) (hI : Inv r w) (s : Nat) (hs : s < w.structs.length) :
+    Inv r ({ w with structs := w.structs ++ [w.structs[s]?.getD { cache := 0, map := none }],
+                    handles := w.handles ++ [.pdb w.structs.length] }) := by
   have hget : w.structs[s]? = some w.structs[s] := List.getElem?_eq_getElem hs
   refine ⟨hI.cfg, fun st hst' => ?_, fun q hq s' hs' => ?_, ?_⟩
   · simp only [List.mem_append, List.mem_singleton] at hst'
@@ -92,8 +96,8 @@ theorem inv_add_copy (w : World) (hI : Inv w) (s : Nat) (hs : s < w.structs.leng
     · left; exact h0
     · right; exact ⟨h1, s0, hs0, by simp only [List.length_append, List.length_singleton]; omega⟩
 
-theorem inv_set_map (w : World) (hI : Inv w) (s : Nat) (st : PStruct) (hst : w.structs[s]? = some st) (m : Option Nat) (nM : Nat) :
-    Inv { w with nM := nM, structs := w.structs.set s { st with map := m } } := by
+theorem inv_set_map (w : World) (hI : Inv r w) (s : Nat) (st : PStruct) (hst : w.structs[s]? = some st) (m : Option Nat) (nM : Nat) :
+    Inv r ({ w with nM := nM, structs := w.structs.set s { st with map := m } }) := by
   have hmem : st ∈ w.structs := List.mem_of_getElem? hst
   refine ⟨hI.cfg, fun st' h' => ?_, fun p hp s' hs' => ?_, ?_⟩
   · rcases List.mem_or_eq_of_mem_set h' with h' | h'
@@ -102,7 +106,7 @@ theorem inv_set_map (w : World) (hI : Inv w) (s : Nat) (st : PStruct) (hst : w.s
   · simp only [List.length_set]; exact hI.bound p hp s' hs'
   · simp only [List.length_set]; exact hI.cnt
 
-theorem step_inv (w : World) (hI : Inv w) (op : DOp) : Inv (stepD w op) := by
+theorem step_inv (w : World) (hI : Inv r w) (op : DOp) : Inv r (stepD w op) := by
   have hc := hI.cfg
   cases op with
   | session h prep =>
@@ -121,8 +125,15 @@ theorem step_inv (w : World) (hI : Inv w) (op : DOp) : Inv (stepD w op) := by
         by_cases htx : isTx p = true
         · simp only [htx, if_true]
           exact inv_add_handle _ hI1 _ (fun s hs => by simp [structOf] at hs; omega)
-        · simp only [htx, Bool.false_eq_true, if_false]
-          exact inv_add_copy _ hI1 _ hlt
+        · have hr : w.cfg.sessReuse = r := by rw [hc]; rfl
+          simp only [htx, Bool.false_eq_true, if_false, hr]
+          cases r with
+          | true =>
+            simp only [if_true]
+            exact inv_add_handle _ hI1 _ (fun s hs => by simp [structOf] at hs; omega)
+          | false =>
+            simp only [Bool.false_eq_true, if_false]
+            exact inv_add_copy _ hI1 _ hlt
   | begin h =>
     simp only [stepD]
     cases hh : w.handles[h]? with
@@ -158,10 +169,10 @@ theorem fold_inv (P : World → Prop) (hstep : ∀ w op, P w → P (stepD w op))
   | nil => exact h0
   | cons op rest ih => exact ih _ (hstep w op h0)
 
-theorem inv_run (prepare : Bool) (seq : List DOp) : Inv (runD good prepare seq) :=
-  fold_inv Inv (fun w op h => step_inv w h op) seq _ (inv_open prepare)
+theorem inv_run (r prepare : Bool) (seq : List DOp) : Inv r (runD (goodWith r) prepare seq) :=
+  fold_inv (Inv r) (fun w op h => step_inv w h op) seq _ (inv_open prepare)
 
-theorem oneCache_of_inv (w : World) (hI : Inv w) : OneCache w := by
+theorem oneCache_of_inv (w : World) (hI : Inv r w) : OneCache w := by
   refine ⟨?_, hI.cache0, ?_⟩
   · rcases hI.cnt with ⟨h, _⟩ | ⟨h, _⟩ <;> omega
   · intro h1
@@ -171,14 +182,14 @@ theorem oneCache_of_inv (w : World) (hI : Inv w) : OneCache w := by
 
 /-! ### single generation: without Reset / Close every struct points to map object 0 -/
 
-structure Inv2 (w : World) : Prop extends Inv w where
+structure Inv2 (r : Bool) (w : World) : Prop extends Inv r w where
   nm : w.nM = w.nC
   map0 : ∀ st ∈ w.structs, st.map = some 0
 
-theorem inv2_open (prepare : Bool) : Inv2 (openW good prepare) := by
-  refine ⟨inv_open prepare, ?_, ?_⟩ <;> cases prepare <;> simp [openW, newCache, good]
+theorem inv2_open (prepare : Bool) : Inv2 r (openW (goodWith r) prepare) := by
+  refine ⟨inv_open prepare, ?_, ?_⟩ <;> cases prepare <;> simp [openW, newCache, goodWith]
 
-theorem cacheFor_good2 (w : World) (hI : Inv2 w) :
+theorem cacheFor_good2 (w : World) (hI : Inv2 r w) :
     (cacheFor w).1.nM = (cacheFor w).1.nC ∧ ∀ st ∈ (cacheFor w).1.structs, st.map = some 0 := by
   cases hs : w.store with
   | some s =>
@@ -195,7 +206,7 @@ theorem cacheFor_good2 (w : World) (hI : Inv2 w) :
     · exact hI.map0 st h
     · rw [h, hm]
 
-theorem step_inv2 (w : World) (hI : Inv2 w) (op : DOp) (hop : noRC [op] = true) : Inv2 (stepD w op) := by
+theorem step_inv2 (w : World) (hI : Inv2 r w) (op : DOp) (hop : noRC [op] = true) : Inv2 r (stepD w op) := by
   have hI0 := step_inv w hI.toInv op
   have hc := hI.cfg
   cases op with
@@ -215,15 +226,22 @@ theorem step_inv2 (w : World) (hI : Inv2 w) (op : DOp) (hop : noRC [op] = true) 
           by_cases htx : isTx p = true
           · simp only [htx, if_true]
             first | exact hnm | exact hmap
-          · simp only [htx, Bool.false_eq_true, if_false]
-            first
-              | exact hnm
-              | (intro st hst'
-                 simp only [List.mem_append, List.mem_singleton] at hst'
-                 rcases hst' with h' | h'
-                 · exact hmap st h'
-                 · rw [h', List.getElem?_eq_getElem hlt]; simp only [Option.getD_some]
-                   exact hmap _ (List.getElem_mem hlt))
+          · have hr : w.cfg.sessReuse = r := by rw [hc]; rfl
+            simp only [htx, Bool.false_eq_true, if_false, hr]
+            cases r with
+            | true =>
+              simp only [if_true]
+              first | exact hnm | exact hmap
+            | false =>
+              simp only [Bool.false_eq_true, if_false]
+              first
+                | exact hnm
+                | (intro st hst'
+                   simp only [List.mem_append, List.mem_singleton] at hst'
+                   rcases hst' with h' | h'
+                   · exact hmap st h'
+                   · rw [h', List.getElem?_eq_getElem hlt]; simp only [Option.getD_some]
+                     exact hmap _ (List.getElem_mem hlt))
   | begin h =>
     refine ⟨hI0, ?_, ?_⟩
     all_goals
@@ -231,17 +249,17 @@ theorem step_inv2 (w : World) (hI : Inv2 w) (op : DOp) (hop : noRC [op] = true) 
       cases hh : w.handles[h]? with
       | none => first | exact hI.nm | exact hI.map0
       | some p =>
-        cases p <;> simp only [hc, good, if_true] <;> first | exact hI.nm | exact hI.map0
+        cases p <;> simp only [hc, goodWith, if_true] <;> first | exact hI.nm | exact hI.map0
   | reset h => simp [noRC] at hop
   | close h => simp [noRC] at hop
 
 theorem noRC_cons (op : DOp) (rest : List DOp) : noRC (op :: rest) = (noRC [op] && noRC rest) := by
   cases op <;> simp [noRC]
 
-theorem inv2_run (prepare : Bool) (seq : List DOp) (h : noRC seq = true) : Inv2 (runD good prepare seq) := by
+theorem inv2_run (r prepare : Bool) (seq : List DOp) (h : noRC seq = true) : Inv2 r (runD (goodWith r) prepare seq) := by
   unfold runD
-  generalize hw : openW good prepare = w0
-  have h0 : Inv2 w0 := hw ▸ inv2_open prepare
+  generalize hw : openW (goodWith r) prepare = w0
+  have h0 : Inv2 r w0 := hw ▸ inv2_open prepare
   clear hw
   induction seq generalizing w0 with
   | nil => exact h0
@@ -251,20 +269,20 @@ theorem inv2_run (prepare : Bool) (seq : List DOp) (h : noRC seq = true) : Inv2 
 
 /-! ### the root of a PrepareStmt database stays the stored struct -/
 
-structure Inv3 (w : World) : Prop extends Inv w where
+structure Inv3 (r : Bool) (w : World) : Prop extends Inv r w where
   root : w.handles[0]? = some (.pdb 0)
   stored : w.store = some 0
   pos : 0 < w.structs.length
 
-theorem inv3_open : Inv3 (openW good true) := by
-  refine ⟨inv_open true, ?_, ?_, ?_⟩ <;> simp [openW, newCache, good]
+theorem inv3_open : Inv3 r (openW (goodWith r) true) := by
+  refine ⟨inv_open true, ?_, ?_, ?_⟩ <;> simp [openW, newCache, goodWith]
 
 theorem head_append {α : Type} (l : List α) (x a : α) (h : l[0]? = some a) : (l ++ [x])[0]? = some a := by
   cases l with
   | nil => simp at h
   | cons b t => simpa using h
 
-theorem step_inv3 (w : World) (hI : Inv3 w) (op : DOp) : Inv3 (stepD w op) := by
+theorem step_inv3 (w : World) (hI : Inv3 r w) (op : DOp) : Inv3 r (stepD w op) := by
   have hI0 := step_inv w hI.toInv op
   have hc := hI.cfg
   have hcf := cacheFor_some w hc 0 hI.stored
@@ -283,17 +301,24 @@ theorem step_inv3 (w : World) (hI : Inv3 w) (op : DOp) : Inv3 (stepD w op) := by
           by_cases htx : isTx p = true
           · simp only [htx, if_true]
             first | exact head_append _ _ _ hI.root | exact hI.stored | exact hI.pos
-          · simp only [htx, Bool.false_eq_true, if_false]
-            first
-              | exact head_append _ _ _ hI.root
-              | exact hI.stored
-              | (simp only [List.length_append, List.length_singleton]; omega)
+          · have hr : w.cfg.sessReuse = r := by rw [hc]; rfl
+            simp only [htx, Bool.false_eq_true, if_false, hr]
+            cases r with
+            | true =>
+              simp only [if_true]
+              first | exact head_append _ _ _ hI.root | exact hI.stored | exact hI.pos
+            | false =>
+              simp only [Bool.false_eq_true, if_false]
+              first
+                | exact head_append _ _ _ hI.root
+                | exact hI.stored
+                | (simp only [List.length_append, List.length_singleton]; omega)
     | begin h =>
       simp only [stepD]
       cases hh : w.handles[h]? with
       | none => first | exact hI.root | exact hI.stored | exact hI.pos
       | some p =>
-        cases p <;> simp only [hc, good, if_true] <;>
+        cases p <;> simp only [hc, goodWith, if_true] <;>
           first | exact head_append _ _ _ hI.root | exact hI.stored | exact hI.pos
     | reset h =>
       cases hb : (w.handles[h]?).bind structOf with
@@ -314,15 +339,17 @@ theorem step_inv3 (w : World) (hI : Inv3 w) (op : DOp) : Inv3 (stepD w op) := by
           simp only [stepD, hb, hst]
           first | exact hI.root | exact hI.stored | (simp only [List.length_set]; exact hI.pos)
 
-theorem inv3_run (seq : List DOp) : Inv3 (runD good true seq) :=
-  fold_inv Inv3 (fun w op h => step_inv3 w h op) seq _ inv3_open
+theorem inv3_run (r : Bool) (seq : List DOp) : Inv3 r (runD (goodWith r) true seq) :=
+  fold_inv (Inv3 r) (fun w op h => step_inv3 w h op) seq _ inv3_open
 
 end Gorm.SCS
 
 namespace Gorm.SCS
 
+variable {r : Bool}
+
 /-- every handle of a healthy world works with cache object 0 (or with none) -/
-theorem cacheOf_zero (w : World) (hI : Inv w) (p : Pool) (hp : p ∈ w.handles) (c : Nat) (hcp : cacheOfPool w p = some c) : c = 0 := by
+theorem cacheOf_zero (w : World) (hI : Inv r w) (p : Pool) (hp : p ∈ w.handles) (c : Nat) (hcp : cacheOfPool w p = some c) : c = 0 := by
   unfold cacheOfPool at hcp
   cases hs : structOf p with
   | none => simp [hs] at hcp
@@ -332,7 +359,7 @@ theorem cacheOf_zero (w : World) (hI : Inv w) (p : Pool) (hp : p ∈ w.handles) 
     rw [← hcp]; exact hI.cache0 _ (List.getElem_mem hlt)
 
 /-- in a single generation every prepared handle points to map object 0 -/
-theorem mapOf_zero (w : World) (hI : Inv2 w) (p : Pool) (hp : p ∈ w.handles) (s : Nat) (hs : structOf p = some s) :
+theorem mapOf_zero (w : World) (hI : Inv2 r w) (p : Pool) (hp : p ∈ w.handles) (s : Nat) (hs : structOf p = some s) :
     mapOfPool w p = some 0 := by
   have hlt := hI.bound p hp s hs
   simp only [mapOfPool, hs, Option.bind_some, List.getElem?_eq_getElem hlt]
@@ -344,14 +371,14 @@ theorem runD_snoc (cfg : SCfg) (prepare : Bool) (seq : List DOp) (op : DOp) :
 
 /-- Close through the root of a PrepareStmt database, then a prepared session from ANY handle: the new handle's struct
     has a nil map -/
-theorem session_after_close (w0 : World) (hI : Inv3 w0) (h : Nat) :
+theorem session_after_close (w0 : World) (hI : Inv3 r w0) (h : Nat) :
     let w := stepD w0 (.close 0)
     h < w.handles.length →
     mapOfPool w (.pdb 0) = none ∧
     ∃ p, (stepD w (.session h true)).handles = w.handles ++ [p] ∧ (structOf p).isSome = true ∧
          mapOfPool (stepD w (.session h true)) p = none := by
   intro w hh
-  have hI' : Inv3 w := step_inv3 w0 hI (.close 0)
+  have hI' : Inv3 r w := step_inv3 w0 hI (.close 0)
   obtain ⟨st0, hst0⟩ : ∃ st, w0.structs[0]? = some st := ⟨_, List.getElem?_eq_getElem hI.pos⟩
   have hw : w = { w0 with structs := w0.structs.set 0 { st0 with map := none } } := by
     show stepD w0 (.close 0) = _
@@ -365,34 +392,113 @@ theorem session_after_close (w0 : World) (hI : Inv3 w0) (h : Nat) :
   by_cases htx : isTx p = true
   · simp only [htx, if_true]
     exact ⟨_, rfl, by simp [structOf], by simpa [mapOfPool, structOf] using hmap0⟩
-  · simp only [htx, Bool.false_eq_true, if_false]
-    refine ⟨_, rfl, by simp [structOf], ?_⟩
-    have hpos := hI'.pos
-    have hget : w.structs[0]? = some w.structs[0] := List.getElem?_eq_getElem hpos
-    rw [hget] at hmap0
-    simp only [mapOfPool, structOf, Option.bind_some, hget, Option.getD_some]
-    simpa using hmap0
+  · have hr : w.cfg.sessReuse = r := by rw [hI'.cfg]; rfl
+    simp only [htx, Bool.false_eq_true, if_false, hr]
+    cases r with
+    | true =>
+      simp only [if_true]
+      exact ⟨_, rfl, by simp [structOf], by simpa [mapOfPool, structOf] using hmap0⟩
+    | false =>
+      simp only [Bool.false_eq_true, if_false]
+      refine ⟨_, rfl, by simp [structOf], ?_⟩
+      have hpos := hI'.pos
+      have hget : w.structs[0]? = some w.structs[0] := List.getElem?_eq_getElem hpos
+      rw [hget] at hmap0
+      simp only [mapOfPool, structOf, Option.bind_some, hget, Option.getD_some]
+      simpa using hmap0
+
+end Gorm.SCS
+
+namespace Gorm.SCS
+
+/-! ### ONE struct: when the session-level handle is the registered struct itself (`sessReuse`, repair of F14a) -/
+
+structure InvR (w : World) : Prop extends Inv true w where
+  one : w.structs.length = w.nC
+
+theorem invR_open (prepare : Bool) : InvR (openW (goodWith true) prepare) := by
+  refine ⟨inv_open prepare, ?_⟩
+  cases prepare <;> simp [openW, newCache, goodWith]
+
+theorem cacheFor_goodR (w : World) (hI : InvR w) : (cacheFor w).1.structs.length = (cacheFor w).1.nC := by
+  cases hs : w.store with
+  | some s => rw [cacheFor_some w hI.cfg s hs]; exact hI.one
+  | none =>
+    rw [cacheFor_none w hI.cfg hs]
+    simp [created, hI.one]
+
+theorem step_invR (w : World) (hI : InvR w) (op : DOp) : InvR (stepD w op) := by
+  have hI0 := step_inv w hI.toInv op
+  have hc := hI.cfg
+  refine ⟨hI0, ?_⟩
+  cases op with
+  | session h prep =>
+    simp only [stepD]
+    cases hh : w.handles[h]? with
+    | none => exact hI.one
+    | some p =>
+      cases prep with
+      | false => exact hI.one
+      | true =>
+        have hone := cacheFor_goodR w hI
+        have hr : w.cfg.sessReuse = true := by rw [hc]; rfl
+        simp only [Bool.not_true, Bool.false_eq_true, if_false, hr, if_true]
+        by_cases htx : isTx p = true
+        · simp only [htx, if_true]; exact hone
+        · simp only [htx, Bool.false_eq_true, if_false]; exact hone
+  | begin h =>
+    simp only [stepD]
+    cases hh : w.handles[h]? with
+    | none => exact hI.one
+    | some p => cases p <;> simp only [hc, goodWith, if_true] <;> exact hI.one
+  | reset h =>
+    cases hb : (w.handles[h]?).bind structOf with
+    | none => simp only [stepD, hb]; exact hI.one
+    | some s =>
+      cases hst : w.structs[s]? with
+      | none => simp only [stepD, hb, hst]; exact hI.one
+      | some st => simp only [stepD, hb, hst, List.length_set]; exact hI.one
+  | close h =>
+    cases hb : (w.handles[h]?).bind structOf with
+    | none => simp only [stepD, hb]; exact hI.one
+    | some s =>
+      cases hst : w.structs[s]? with
+      | none => simp only [stepD, hb, hst]; exact hI.one
+      | some st => simp only [stepD, hb, hst, List.length_set]; exact hI.one
+
+theorem invR_run (prepare : Bool) (seq : List DOp) : InvR (runD (goodWith true) prepare seq) :=
+  fold_inv InvR (fun w op h => step_invR w h op) seq _ (invR_open prepare)
+
+/-- one struct: at most one `PreparedStmtDB` value exists and every prepared handle is on it -/
+theorem oneStruct_of_invR (w : World) (hI : InvR w) :
+    w.structs.length ≤ 1 ∧ ∀ p ∈ w.handles, ∀ s, structOf p = some s → s = 0 := by
+  have hn : w.nC ≤ 1 := by rcases hI.cnt with ⟨h, _⟩ | ⟨h, _⟩ <;> omega
+  refine ⟨by rw [hI.one]; exact hn, fun p hp s hs => ?_⟩
+  have := hI.bound p hp s hs
+  rw [hI.one] at this; omega
 
 end Gorm.SCS
 
 namespace Gorm.SCS
 
 /-- once a cache is registered, every `Session(PrepareStmt)` that STARTS afterwards ends up on it, whatever the
-    interleaving of the calls -/
-structure CInv (c : Nat) (n : Nat) (s : CState) : Prop where
+    interleaving of the calls and whichever way a created cache would be registered (`Store` or `LoadOrStore`) -/
+structure CInv (c : Nat) (n : Nat) (rs : List Nat) (s : CState) : Prop where
   store : s.store = some c
   nC : s.nC = n
+  regs : s.regs = rs
   loaded : ∀ g, s.loaded g = none ∨ s.loaded g = some (some c)
   got : ∀ g, s.got g = none ∨ s.got g = some c
 
-theorem cstep_inv (c n : Nat) (s : CState) (hI : CInv c n s) (a : CAct) : CInv c n (cstep s a) := by
+theorem cstep_inv (ato : Bool) (c n : Nat) (rs : List Nat) (s : CState) (hI : CInv c n rs s) (a : CAct) :
+    CInv c n rs (cstep ato s a) := by
   cases a with
   | load g =>
     simp only [cstep]
     cases hl : s.loaded g with
     | some x => exact hI
     | none =>
-      refine ⟨hI.store, hI.nC, fun j => ?_, hI.got⟩
+      refine ⟨hI.store, hI.nC, hI.regs, fun j => ?_, hI.got⟩
       by_cases hj : j = g
       · simp [hj, hI.store]
       · simp only [hj, if_false]; exact hI.loaded j
@@ -403,15 +509,74 @@ theorem cstep_inv (c n : Nat) (s : CState) (hI : CInv c n s) (a : CAct) : CInv c
     · rw [hl]
       rcases hI.got g with hg | hg
       · rw [hg]
-        refine ⟨hI.store, hI.nC, hI.loaded, fun j => ?_⟩
+        refine ⟨hI.store, hI.nC, hI.regs, hI.loaded, fun j => ?_⟩
         by_cases hj : j = g
         · simp [hj]
         · simp only [hj, if_false]; exact hI.got j
       · rw [hg]; exact hI
 
-theorem crun_inv (c n : Nat) (sched : List CAct) (s : CState) (hI : CInv c n s) : CInv c n (crun s sched) := by
+theorem crun_inv (ato : Bool) (c n : Nat) (rs : List Nat) (sched : List CAct) (s : CState) (hI : CInv c n rs s) :
+    CInv c n rs (crun ato s sched) := by
   induction sched generalizing s with
   | nil => exact hI
-  | cons a rest ih => exact ih _ (cstep_inv c n s hI a)
+  | cons a rest ih => exact ih _ (cstep_inv ato c n rs s hI a)
+
+/-- registration with `LoadOrStore` (repaired code): whatever the interleaving, the registered cache is never replaced, at
+    most one cache object is ever registered, and whatever a goroutine loaded or ended up with IS the registered one -/
+structure AInv (s : CState) : Prop where
+  regs : (s.store = none ∧ s.regs = []) ∨ (∃ c, s.store = some c ∧ s.regs = [c])
+  loaded : ∀ g x, s.loaded g = some (some x) → s.store = some x
+  got : ∀ g x, s.got g = some x → s.store = some x
+
+theorem astep_inv (s : CState) (hI : AInv s) (a : CAct) : AInv (cstep true s a) := by
+  cases a with
+  | load g =>
+    simp only [cstep]
+    cases hl : s.loaded g with
+    | some x => exact hI
+    | none =>
+      refine ⟨hI.regs, fun j x hx => ?_, hI.got⟩
+      by_cases hj : j = g
+      · simp only [hj, if_true, Option.some.injEq] at hx; exact hx
+      · simp only [hj, if_false] at hx; exact hI.loaded j x hx
+  | build g =>
+    simp only [cstep]
+    cases hl : s.loaded g with
+    | none => exact hI
+    | some l =>
+      cases hg : s.got g with
+      | some y => cases l <;> exact hI
+      | none =>
+        cases l with
+        | some c =>
+          have hc := hI.loaded g c hl
+          refine ⟨hI.regs, hI.loaded, fun j x hx => ?_⟩
+          by_cases hj : j = g
+          · simp only [hj, if_true, Option.some.injEq] at hx; rw [← hx]; exact hc
+          · simp only [hj, if_false] at hx; exact hI.got j x hx
+        | none =>
+          simp only [if_true]
+          cases hs : s.store with
+          | some c =>
+            refine ⟨by simpa [hs] using hI.regs, fun j x hx => by simpa [hs] using hI.loaded j x hx, fun j x hx => ?_⟩
+            by_cases hj : j = g
+            · simp only [hj, if_true, Option.some.injEq] at hx; rw [← hx]
+            · simp only [hj, if_false] at hx; simpa [hs] using hI.got j x hx
+          | none =>
+            have hr : s.regs = [] := by
+              rcases hI.regs with ⟨_, h⟩ | ⟨c, h, _⟩
+              · exact h
+              · rw [hs] at h; cases h
+            refine ⟨Or.inr ⟨s.nC, rfl, by simp [hr]⟩, fun j x hx => ?_, fun j x hx => ?_⟩
+            · have := hI.loaded j x hx; rw [hs] at this; cases this
+            · by_cases hj : j = g
+              · simp only [hj, if_true, Option.some.injEq] at hx; rw [← hx]
+              · simp only [hj, if_false] at hx
+                have := hI.got j x hx; rw [hs] at this; cases this
+
+theorem arun_inv (sched : List CAct) (s : CState) (hI : AInv s) : AInv (crun true s sched) := by
+  induction sched generalizing s with
+  | nil => exact hI
+  | cons a rest ih => exact ih _ (astep_inv s hI a)
 
 end Gorm.SCS
